@@ -20,11 +20,12 @@ import time
 from typing import Dict, List, Tuple
 
 from bounded import common as bc
-from bounded.c04 import Violations, eval_item, make_item, rc_words, replay_snippet, rotating_fc_word
+from bounded.c04 import (Violations, cut_note, deadline_for, eval_item, make_item, pmap_until, rc_words, replay_snippet,
+                         rotating_fc_word)
 from specs import treesem as ts
 
-HINT_POOL = ("501", "502", "503")
-FC_POOL = ("901", "902", "903")
+HINT_POOL = ("501", "503")  # one key that may already occur in the base, one that never does
+FC_POOL = ("901", "903")
 KINDS = ("hint-root", "hint-operand", "fc-attach", "brackets", "swap")
 
 
@@ -72,7 +73,7 @@ def _outcome(r):
 
 
 def check_bases(ctx, name: str, bases: List[ts.Tree], per_kind, rng: random.Random, exhaustive: bool,
-                bound: str) -> None:
+                bound: str, deadline: float, chunk: int = 20000) -> None:
     """per_kind: None = every variant, n = a seeded sample of n variants of every kind per base"""
     t0 = time.time()
     bc.configure_inject()
@@ -96,7 +97,8 @@ def check_bases(ctx, name: str, bases: List[ts.Tree], per_kind, rng: random.Rand
             items.append(make_item(vtree, [(w, rotating_fc_word(n_fc, bi + vi + j)) for j, w in enumerate(words)],
                                    text=vtext))
             owner.append((bi, (kind, descr, vtext)))
-    results = bc.pmap(eval_item, items)
+    results = pmap_until(eval_item, items, deadline, chunk=chunk)
+    exhaustive, bound = exhaustive and len(results) == len(items), bound + cut_note(len(results), len(items))
 
     base_res: Dict[int, list] = {}
     v_meta = Violations(ctx, name + "/metamorphic")
@@ -175,7 +177,7 @@ def check_bases(ctx, name: str, bases: List[ts.Tree], per_kind, rng: random.Rand
                 "distinct (base text, variant text, requirement assignment) triples with variant text != base text; "
                 f"per transformation: {per_kind_count}",
                 samples_meta, exhaustive=exhaustive and per_kind is None,
-                bound=bound + ("; every variant (all positions, hint keys 501-503 / format keys 901-903, both sides)"
+                bound=bound + ("; every variant (all positions, hint keys 501,503 / format keys 901,903, both sides)"
                                if per_kind is None else f"; seeded sample of {per_kind} variant(s) per transformation "
                                "kind and base") + "; evaluations = runs of variants (base runs counted in the other part)",
                 seconds=secs)
@@ -189,15 +191,22 @@ def run(ctx, tier: str, seed: int) -> None:
     ts.self_check()
     ctx.trust("A-LARK-RESOLVE (grouping of the rendered text is the tree it was rendered from: C01)")
     rng = random.Random(seed)
+    deadline = deadline_for(tier, time.time())
     leaves = ts.default_leaves()
     by_n = ts.enumerate_trees(3 if tier == "quick" else 4, leaves)
     valid = {n: [t for t in by_n[n] if ts.valid(t)] for n in range(1, len(by_n))}
     if tier == "quick":
         check_bases(ctx, "<=2-leaves", valid[1] + valid[2], None, rng, True,
-                    "all valid in-domain base trees with <=2 leaves")
-        check_bases(ctx, "3-leaves", valid[3], 1, rng, True, "all valid in-domain base trees with 3 leaves")
+                    "all valid in-domain base trees with <=2 leaves", deadline)
+        three = list(valid[3])
+        rng.shuffle(three)  # so that a prefix cut off by the time budget is a seeded sample
+        check_bases(ctx, "3-leaves", three, 1, rng, True, "all valid in-domain base trees with 3 leaves", deadline,
+                    chunk=3000)
     else:
-        check_bases(ctx, "<=3-leaves", valid[1] + valid[2] + valid[3], None, rng, True,
-                    "all valid in-domain base trees with <=3 leaves")
-        four = rng.sample(valid[4], min(20000, len(valid[4])))
-        check_bases(ctx, "4-leaves", four, 1, rng, False, "seeded sample of 20000 valid in-domain base trees with 4 leaves")
+        three = list(valid[3])
+        rng.shuffle(three)
+        check_bases(ctx, "<=3-leaves", valid[1] + valid[2] + three, None, rng, True,
+                    "all valid in-domain base trees with <=3 leaves", deadline - 150.0)
+        four = rng.sample(valid[4], min(15000, len(valid[4])))
+        check_bases(ctx, "4-leaves", four, 1, rng, False, "seeded sample of 15000 valid in-domain base trees with 4 leaves",
+                    deadline)
